@@ -36,7 +36,7 @@ BOUNDED_RULE = (
     "cases = (generated source file(s) from 22 statement shapes x filler lines before/after (comments, blank, tabs, "
     "non-ASCII, balanced markup, multi-line strings / calls / continuation lines, f-strings) | source-less code (exec / "
     "compile with a fake or missing file, eval, file deleted / truncated after loading)) x exception class x message from a "
-    "16-message adversarial set x cause chain x recursion depth {1,2,5,60}; modes = verbosity {0,1,2,4} x UTF-8 on/off x "
+    "19-message adversarial set x cause chain x recursion depth {1,2,5,60}; modes = verbosity {0,1,2,4} x UTF-8 on/off x "
     "ANSI/plain x simple/full x ignore pattern; key = (hash of the files + call + message, mode); a case is non-trivial "
     "when the rendered exception has a source file (snippet clauses apply) or a non-empty message (content clause "
     "applies); the highlighter corpus check has one case per file, non-trivial when the file is not empty"
@@ -61,11 +61,14 @@ def split_markup(text):
     out = []
     pos = 0
     for m in TAG_RE.finditer(text):
+        if m.start() > 0 and text[m.start() - 1] == "\\":
+            continue  # an escaped tag is text
         if _is_style_tag(m):
             out.append(text[pos:m.start()])
             pos = m.end()
     out.append(text[pos:])
-    return out
+    # the escape character itself is markup: shown or not, it is not part of the text
+    return [p.replace("\\<", "<") for p in out]
 
 
 def strip_markup(text):
@@ -108,6 +111,10 @@ MESSAGES = [
     "ends with newline\n",
     "very long " + "word " * 400 + "X" * 1500,
     "<info>multi\nline</info> tags",
+    # escaped tags: one formatting pass turns them into real (unbalanced / invalid) ones
+    "escaped \\</info> closing",
+    "escaped \\<fg=nocolor>invalid style",
+    "\\<error>open and \\</b> mismatched",
 ]
 
 FILLERS = [
@@ -382,7 +389,9 @@ def check_render(e, info, mode, case_class):
     lines = out.split("\n")
 
     if mode["simple"]:
-        if strip_markup(out).rstrip("\n") != strip_markup(message).rstrip("\n"):
+        # either the text of the message (tags removed, escaped tags shown as text) or, failing that, the message as it is
+        want = strip_markup(message).rstrip("\n")
+        if out.rstrip("\n") != want and strip_markup(out).rstrip("\n") != want:
             fails.append(("content|simple|not-just-the-message", "simple render of %s(%r) printed %r" % (cname, message[:60], out[:120])))
         return fails
 
@@ -398,13 +407,22 @@ def check_render(e, info, mode, case_class):
             fails.append(("content|full|class-name-missing", "trace of %s(%r) does not show the class name" % (cname, message[:60])))
             idx = 0
     rest = "\n".join(lines[idx:])
-    pos = 0
-    for piece in message_pieces(message):
-        j = rest.find(piece, pos)
-        if j < 0:
-            fails.append(("content|full|message-text-missing", "trace of %s(%r) does not show %r after the class name" % (cname, message[:60], piece[:60])))
+    missing = None
+    # (the second reading is the raw fallback: a message that is not valid markup is printed as it is, escapes included)
+    for shown in (rest, rest.replace("\\<", "<")):
+        pos = 0
+        missing = None
+        for piece in message_pieces(message):
+            j = shown.find(piece, pos)
+            if j < 0:
+                missing = piece
+                break
+            pos = j + len(piece)
+        if missing is None:
             break
-        pos = j + len(piece)
+    if missing is not None:
+        cls = "escaped-tag-in-message" if "\\<" in message else "other-message"
+        fails.append(("content|full|message-text-missing|" + cls, "trace of %s(%r) does not show %r after the class name" % (cname, message[:60], missing[:60])))
 
     # ---- snippet
     if info["lines"] is not None:
